@@ -572,6 +572,13 @@ def crash_part(ctx, tabs, rng, n, scratch):
     for s in star_seeds:
         reqs.append({"op": "load.packages", "dir": scratch, "files": [["BUILD.star", s]], "workers": 2, "timeout_s": 15})
         meta.append(("BUILD.star", "seed", s))
+    # TYPE-level corruptions: every field of a target / alias / package with every wrongly typed value, in every format
+    typed = G.typed_corruptions()
+    if ctx.tier == "quick":
+        typed = [c for c in typed if c[0] in ("BUILD.star", "BUILD.json") or rng.random() < 0.35]
+    for name, text, d in typed:
+        reqs.append({"op": "load.packages", "dir": scratch, "files": [[name, text]], "workers": 2, "timeout_s": 15})
+        meta.append((name, "type:" + d.split("=")[0], text))
     for _ in range(n):
         name = rng.choice(FORMATS + ["x.grog.sh"])
         if name == "x.grog.sh":
@@ -588,7 +595,8 @@ def crash_part(ctx, tabs, rng, n, scratch):
         return False
     for (name, kind, text), r in zip(meta, io):
         fz["cases"] += 1
-        fz["by_kind"][kind] = fz["by_kind"].get(kind, 0) + 1
+        kk = "type-level" if kind.startswith("type:") else kind
+        fz["by_kind"][kk] = fz["by_kind"].get(kk, 0) + 1
         fz["by_format"][name] = fz["by_format"].get(name, 0) + 1
         ctx.coverage["evaluations"] += 1
         desc = bad_reply(r)
@@ -695,6 +703,8 @@ def run(ctx):
     bad_yaml = [c for c, v in tabs.yaml.items() if isinstance(v, tuple)]
     for c in bad_yaml[:1]:
         ctx.violation("yaml.v3 " + tabs.yaml[c][1], {"kind": "oracle", "oracle": "no panic / hang (fuzzing)", "content": c}, signature="yaml:panic")
+    # report violations that come with a concrete failing input first
+    ctx.violations.sort(key=lambda v: not v[1])
 
 
 def replay(ctx, rep):
